@@ -162,6 +162,13 @@ def exec_spec_loop(ex, s, env, seq, spec, ordinal):
         ex.exec_block(s.body, env)
         for nm, t, uses in inv_terms(k + 1):
             ex.oblige("loop%d.preserve.%s" % (ordinal, nm), t, spec.tags or con.tags, s.lineno, "loop", uses=uses)
+        if spec.step is not None:
+            c_ = Ctx(ex.pre, ex.st, ex.argvals, ex.self_ref, con.cls)
+            L_ = LoopView(ex, seq, k, n, entry, env, entry_env)
+            L_.elem = seq.at(k)
+            for it in spec.step(c_, L_, head):
+                ex.oblige("loop%d.step.%s" % (ordinal, it[0]), tobool(it[1]), (list(it[2]) if len(it) > 2 else None) or spec.tags or con.tags,
+                          s.lineno, "loop")
         for name in ex.st.components():
             if name in spec.modifies:
                 continue
